@@ -130,7 +130,12 @@ def sendStep (p : SendParams) (ws : List String) : Option (SendParams × String)
     let reset ← (kv rest "reset").bind optNat
     let budget ← (kv rest "budget").bind optNat
     let src : Src := { chunks := patChunks seed 0 cs, fail := fail == "1", writerTo := wt == "1" }
-    let o := send p src { resetAt := reset, budget := budget }
+    -- `stall=1`: the body stalls at the read where the reset arrives (see `Src.stallAt`)
+    let stalled := (kv rest "stall") == some "1" && reset.isSome && p.mode == .streaming
+    -- a read number beyond the EOF read never happens: then neither the stall nor the reset it brings
+    let nData := (src.chunks.flatMap fun c => chunks c copyBuf).length
+    let src := if stalled && reset.getD 0 ≤ nData then src.stallAt (reset.getD 0) else src
+    let o := send p src { resetAt := if stalled then none else reset, budget := budget }
     let n := o.forwarded.length
     let h := o.writes.foldl fnvBytes fnvInit
     let wh := o.writes.foldl (fun h w => fnvStr h (toString w.length ++ ",")) fnvInit
